@@ -7,6 +7,7 @@ import (
 	"regexp"
 	"runtime"
 	"sort"
+	"strconv"
 	"strings"
 	"sync"
 	"time"
@@ -77,6 +78,10 @@ func childMain(specPath string) {
 		}
 	} else {
 		quietLogs(nil)
+	}
+	if v, err := strconv.Atoi(os.Getenv("VERIF_CHILD_CAP_S")); err == nil && v > 0 {
+		// never outlive the parent's cap, whatever happens to the parent
+		time.AfterFunc(time.Duration(v)*time.Second, func() { os.Exit(4) })
 	}
 	res := runCase(&spec)
 	writeResult(spec.Out, res)
